@@ -306,6 +306,15 @@ type Desc struct {
 	// observes the operator Pair[Which]; Op is its kind.
 	Pair  []string `json:"pair,omitempty"`
 	Which int      `json:"which,omitempty"`
+	// re-keyed result programs: invocation 1 returns a slice keyed by its first K
+	// columns (Prefixed(input, K), reduced when that leaves one value column);
+	// its *Result is the argument of invocation 2 = Op(Prefixed(result, J)). The
+	// case observes Op; its producers are the result's shards, its key is the
+	// first J columns: the prefix of the slice being shuffled, not of the tasks
+	// that produced the result.
+	Rekey bool `json:"rekey,omitempty"`
+	K     int  `json:"k,omitempty"`
+	J     int  `json:"j,omitempty"`
 }
 
 // Obs is what running a Desc observed.
@@ -315,6 +324,7 @@ type Obs struct {
 	Failed  bool     `json:"failed,omitempty"`
 	Err     string   `json:"err,omitempty"`
 	Outs    []Out    `json:"outs,omitempty"`
+	Stage1  []Out    `json:"stage1,omitempty"` // re-keyed programs: (shard, whole row) of the first invocation's result
 }
 
 // Out is a (shard, key) pair recorded by the writer after the operator.
@@ -475,7 +485,7 @@ func input(d *Desc, which int) bigslice.Slice {
 		return ret(len(b), nil)
 	})
 	var s bigslice.Slice = bigslice.ReaderFunc(nshard, read.Interface())
-	if d.Prefix > 1 {
+	if d.Prefix > 1 && !d.Rekey {
 		s = bigslice.Prefixed(s, d.Prefix)
 	}
 	return s
@@ -552,6 +562,42 @@ func buildPair(d *Desc) bigslice.Slice {
 	return bigslice.Cogroup(sides[0], sides[1])
 }
 
+// buildStage1 is invocation 1 of a re-keyed result program: the input keyed by
+// its first K columns, reduced if that is typeable; all columns recorded.
+func buildStage1(d *Desc) bigslice.Slice {
+	s := bigslice.Prefixed(input(d, 0), d.K)
+	if d.K == len(d.Types) { // exactly one value column (the row number) is left
+		s = bigslice.Reduce(s, func(a, b int) int { return a + b })
+	}
+	return recordAs(d, s, len(d.Types)+1, recID(d, 0))
+}
+
+// buildStage2 is invocation 2: the operator applied directly to the re-keyed result.
+func buildStage2(d *Desc, res bigslice.Slice) bigslice.Slice {
+	in0 := bigslice.Prefixed(res, d.J)
+	switch d.Op {
+	case "reshuffle":
+		return record(d, bigslice.Reshuffle(in0), d.J)
+	case "reshard":
+		return record(d, bigslice.Reshard(in0, d.NOut), d.J)
+	case "cogroup":
+		return record(d, bigslice.Cogroup(in0), d.J)
+	case "reduce":
+		return record(d, bigslice.Reduce(in0, func(a, b int) int { return a + b }), d.J)
+	case "fold":
+		in := []reflect.Type{typeOfInt}
+		for c := 1; c < in0.NumOut(); c++ {
+			in = append(in, in0.Out(c))
+		}
+		ft := reflect.FuncOf(in, []reflect.Type{typeOfInt}, false)
+		fn := reflect.MakeFunc(ft, func(args []reflect.Value) []reflect.Value {
+			return []reflect.Value{reflect.ValueOf(int(args[0].Int()) + 1)}
+		})
+		return record(d, bigslice.Fold(in0, fn.Interface()), 1)
+	}
+	panic("unknown re-keyed op " + d.Op)
+}
+
 // build constructs the program of an e2e case.
 func build(d *Desc) bigslice.Slice {
 	if len(d.Pair) == 2 {
@@ -592,7 +638,7 @@ func nPart(d *Desc) int {
 	case "reshard":
 		return d.NOut
 	case "cogroup":
-		if d.NIn[1] > d.NIn[0] {
+		if len(d.NIn) > 1 && d.NIn[1] > d.NIn[0] {
 			return d.NIn[1]
 		}
 	}
@@ -605,6 +651,22 @@ var prog = bigslice.Func(func(js string) bigslice.Slice {
 		panic(err)
 	}
 	return build(&d)
+})
+
+var prog1 = bigslice.Func(func(js string) bigslice.Slice {
+	var d Desc
+	if err := json.Unmarshal([]byte(js), &d); err != nil {
+		panic(err)
+	}
+	return buildStage1(&d)
+})
+
+var prog2 = bigslice.Func(func(js string, res bigslice.Slice) bigslice.Slice {
+	var d Desc
+	if err := json.Unmarshal([]byte(js), &d); err != nil {
+		panic(err)
+	}
+	return buildStage2(&d, res)
 })
 
 var sessions = map[string]*exec.Session{}
@@ -652,6 +714,15 @@ func runE2E(d *Desc) (o Obs) {
 				done <- fmt.Errorf("panic: %v", r)
 			}
 		}()
+		if d.Rekey {
+			sess := session(d.Exec)
+			res, err := sess.Run(context.Background(), prog1, string(js))
+			if err == nil {
+				_, err = sess.Run(context.Background(), prog2, string(js), res)
+			}
+			done <- err
+			return
+		}
 		_, err := session(d.Exec).Run(context.Background(), prog, string(js))
 		done <- err
 	}()
@@ -672,8 +743,12 @@ func runE2E(d *Desc) (o Obs) {
 	}
 	recMu.Lock()
 	o.Outs = append([]Out(nil), rec[slot]...)
+	if d.Rekey {
+		o.Stage1 = append([]Out(nil), rec[recID(d, 0)]...)
+	}
 	clearRec()
 	recMu.Unlock()
+	sortOuts(o.Stage1)
 	// An aggregating operator emits one of the Go-equal keys it merged (+0.0 or
 	// -0.0, whichever row came first: goroutine order); the representative is not
 	// fixed by anything, so it is canonicalised to +0.0.
@@ -686,13 +761,17 @@ func runE2E(d *Desc) (o Obs) {
 			}
 		}
 	}
-	sort.SliceStable(o.Outs, func(i, j int) bool {
-		if o.Outs[i].Shard != o.Outs[j].Shard {
-			return o.Outs[i].Shard < o.Outs[j].Shard
-		}
-		return keyCoq(o.Outs[i].Key) < keyCoq(o.Outs[j].Key)
-	})
+	sortOuts(o.Outs)
 	return o
+}
+
+func sortOuts(outs []Out) {
+	sort.SliceStable(outs, func(i, j int) bool {
+		if outs[i].Shard != outs[j].Shard {
+			return outs[i].Shard < outs[j].Shard
+		}
+		return keyCoq(outs[i].Key) < keyCoq(outs[j].Key)
+	})
 }
 
 func run(d *Desc) (o Obs) {
@@ -749,7 +828,21 @@ func term(d *Desc, o Obs, other *Obs) string {
 	case "e2e":
 		// producers of all inputs, in input order; batches in order
 		var prods []string
+		if d.Rekey { // the producers are the shards of the first invocation's result
+			for p := 0; p < d.NIn[0]; p++ {
+				var rows []string
+				for _, r := range o.Stage1 {
+					if r.Shard == p {
+						rows = append(rows, vf.App("mkIn", keyCoq(r.Key[:d.J]), "0"))
+					}
+				}
+				prods = append(prods, vf.List([]string{vf.List(rows)}))
+			}
+		}
 		for in := range d.NIn {
+			if d.Rekey {
+				break
+			}
 			for p := 0; p < d.NIn[in]; p++ {
 				var batches [][]string
 				for ri, r := range d.Rows {
@@ -922,6 +1015,89 @@ func genPair(r *vf.Rand, id int, pair [2]string, which int, ex string) Desc {
 	return d
 }
 
+var rekeyTypes = [][]string{
+	{"string", "int"}, {"int", "int16"}, {"int64", "string"}, {"string", "uint8", "int"},
+	{"int", "bool", "string"}, {"string", "float64"}, {"int", "bytes", "int8"},
+}
+
+// genRekey: a re-keyed result program (see Desc.Rekey). rel says how the
+// consumer's prefix J relates to the result's prefix K: smaller (the interesting
+// case: rows with equal new key differ in the dropped key columns), equal, or
+// larger (controls). Every column draws from a pool of two or three values, and
+// the last column is the row number, so equal J-prefixes with different
+// K-prefixes abound. ok is false when the combination cannot be typed.
+func genRekey(r *vf.Rand, id int, op string, rel int, ex string) (Desc, bool) {
+	d := Desc{Kind: "e2e", ID: id, Op: op, Exec: ex, Rekey: true}
+	d.Types = rekeyTypes[r.Intn(len(rekeyTypes))]
+	if op == "reduce" && rel > 0 {
+		d.Types = rekeyTypes[3+r.Intn(2)] // needs K < J = ncols-1: four columns
+		if r.Bool() {
+			d.Types = rekeyTypes[6]
+		}
+	}
+	ncols := len(d.Types) + 1
+	switch op {
+	case "reduce": // exactly one value column after the prefix
+		d.J = ncols - 1
+	case "fold": // folds by the first column (string, int or int64 in every rekeyTypes entry)
+		d.J = 1
+	case "cogroup":
+		d.J = r.Range(1, ncols-1)
+	default:
+		d.J = r.Range(1, ncols)
+	}
+	switch {
+	case rel < 0:
+		if d.J == ncols {
+			d.J--
+		}
+		d.K = r.Range(d.J+1, ncols)
+	case rel == 0:
+		d.K = d.J
+	default:
+		if d.J == 1 {
+			if op == "fold" {
+				return d, false
+			}
+			d.J = 2
+		}
+		d.K = r.Range(1, d.J-1)
+	}
+	d.Prefix = d.J
+	d.Chunk = []int{2, 5, 16, 128}[r.Intn(4)]
+	n := []int{2, 3, 4, 5, 7}[r.Intn(5)]
+	d.NIn = []int{n}
+	if op == "reshard" {
+		d.NOut = []int{2, 3, 4, 6, 9}[r.Intn(5)]
+		if d.NOut == n {
+			d.NOut++
+		}
+	}
+	pools := make([][]Val, len(d.Types))
+	for c, t := range d.Types {
+		for i := 0; i < r.Range(2, 3); i++ {
+			pools[c] = append(pools[c], randVal(r, t, false))
+		}
+	}
+	nrows := r.Range(16, 40)
+	fill := make([]int, n)
+	batch := make([]int, n)
+	for i := 0; i < nrows; i++ {
+		p := r.Intn(n)
+		if fill[p] >= d.Chunk || (fill[p] > 0 && r.Chance(1, 4)) {
+			batch[p]++
+			fill[p] = 0
+		}
+		fill[p]++
+		key := make([]Val, len(d.Types))
+		for c := range key {
+			key[c] = pools[c][r.Intn(len(pools[c]))]
+		}
+		d.Rows = append(d.Rows, Row{P: p, B: batch[p], Key: key})
+	}
+	return d, true
+}
+
 // aimed cases for the two defects found while modelling (kept in the model; see
 // the final report): they carry their own signatures.
 func aimed(id *int, ex string) []Desc {
@@ -1057,6 +1233,23 @@ func generate(opts vf.Opts) []Desc {
 			}
 		}
 	}
+	// --- a *Result of one invocation re-keyed and redistributed by a second one
+	nrekey := 1
+	if thorough {
+		nrekey = 8
+	}
+	nrekey *= opts.Scale
+	for k := 0; k < nrekey; k++ {
+		for _, op := range []string{"reshuffle", "reshard", "cogroup", "reduce", "fold"} {
+			for _, rel := range []int{-1, 0, 1} { // J < K, J = K, J > K
+				for _, ex := range execs {
+					if d, ok := genRekey(root.Split(), next(), op, rel, ex); ok {
+						ds = append(ds, d)
+					}
+				}
+			}
+		}
+	}
 	for _, ex := range execs {
 		ds = append(ds, aimed(&id, ex)...)
 	}
@@ -1103,6 +1296,15 @@ func kindOf(d *Desc) string {
 	case "range":
 		return "range/" + d.T
 	}
+	if d.Rekey {
+		rel := "j=k"
+		if d.J < d.K {
+			rel = "j<k"
+		} else if d.J > d.K {
+			rel = "j>k"
+		}
+		return fmt.Sprintf("e2e/rekeyed-result:%s:%s/%s", d.Op, rel, d.Exec)
+	}
 	if len(d.Pair) == 2 {
 		return fmt.Sprintf("e2e/pair:%s+%s@%d/%s", d.Pair[0], d.Pair[1], d.Which, d.Exec)
 	}
@@ -1112,6 +1314,9 @@ func kindOf(d *Desc) string {
 func sigOf(d *Desc) string {
 	if d.Tag != "" {
 		return d.Tag
+	}
+	if d.Kind == "e2e" && d.Rekey {
+		return "e2e-rekeyed-result-" + d.Op
 	}
 	if d.Kind == "e2e" && len(d.Pair) == 2 {
 		return "e2e-pair-" + d.Pair[0] + "+" + d.Pair[1]
